@@ -24,6 +24,7 @@ type Profile struct {
 	PRollout, PExperiment                     float64
 	PMalformed                                float64
 	PDocNoise                                 float64
+	PSegBucket                                float64 // extra weight on weighted segment rules with a bucket-by attribute, some of them invalid references
 	PNestedSeg                                float64 // a weighted segment rule that first looks into another segment, split point next to the context's bucket
 	PSingleMal                                float64 // cases that are one well-formed flag with exactly one malformation, certainly reached
 	PZeroAge                                  float64 // the context certainly has "age": +0 or -0
@@ -53,6 +54,18 @@ func baseProfile(name string) Profile {
 
 var ctxKeys = []string{"a", "b", "c", "d", "e", "f"}
 var kinds = []string{"user", "org", "dev"}
+
+// docKind: a context kind written in a document (clause / rollout / target / big-segment kind). Mostly a real kind; sometimes
+// the pseudo-kind "multi" (Kind() of a multi-kind context, which no individual context can have) or a kind nobody has.
+func docKind(r *Rng) string {
+	if r.P(0.07) {
+		return "multi"
+	}
+	if r.P(0.02) {
+		return "nokind"
+	}
+	return r.Pick(kinds)
+}
 var flagKeys = []string{"f0", "f1", "f2", "f3", "f4", "f%d-50%-off"} // one key that a printf-style logger must not interpret
 var segKeys = []string{"s0", "s1", "s2", "s3", "s4", "s%v"}
 
@@ -331,7 +344,7 @@ func (w *World) genClause(segOK bool) *J {
 	}
 	kind := ""
 	if r.P(0.5) {
-		kind = r.Pick(kinds)
+		kind = docKind(r)
 	}
 	attr := r.Pick(append([]string{"key", "name", "anonymous"}, attrNames...))
 	if r.P(0.6) && w.real.Err() == nil { // mostly an attribute that some individual context really has
@@ -400,9 +413,9 @@ func (w *World) genClause(segOK bool) *J {
 		var v *J
 		if r.P(0.45) {
 			v = w.ctxValueFor(effKind, attr, path)
-			if v != nil && attr == "kind" {
-				v = JStr(r.Pick(kinds))
-			}
+		}
+		if (attr == "kind" || attr == "/kind") && r.P(0.8) { // real kinds, the pseudo-kind "multi", and fragments of both for the string operators
+			v = JStr(r.Pick([]string{"user", "org", "dev", "multi", "mu", "ult", "i", "^m", "use", "multi"}))
 		}
 		if v == nil {
 			switch op {
@@ -421,6 +434,9 @@ func (w *World) genClause(segOK bool) *J {
 				v = w.scalarOfType([]int{3, 3, 1, 2}[r.Intn(4)])
 				if r.P(0.1 + 0.25*p.PDateAttr) { // instants outside the years a timestamp string can spell (0000-9999), as numbers
 					v = JNum([]float64{253402300800000, 253402300799999, 9007199254740992, -62167219200001, -62167219200000, -1e15}[r.Intn(6)])
+				}
+				if r.P(0.1) { // the shortest spellings: a one-digit hour, no fraction, Z (19 bytes)
+					v = JStr(r.Pick([]string{"2021-03-04T5:06:07Z", "1999-12-31T9:59:59Z", "2020-01-01T0:00:00z", "0001-01-01T0:00:00Z", "2019-12-31t9:00:00Z"}))
 				}
 				if r.P(0.1) { // instants before the epoch, as numbers
 					v = JNum([]float64{-1, -315619200000, -86400000.5, -1e15}[r.Intn(4)])
@@ -550,7 +566,7 @@ func (w *World) genRollout(flagKey, salt string, nvars int) *J {
 	}
 	kind := ""
 	if r.P(0.4) {
-		kind = r.Pick(kinds)
+		kind = docKind(r)
 		ro.Set("contextKind", JStr(kind))
 	}
 	var seed *int64
@@ -567,7 +583,7 @@ func (w *World) genRollout(flagKey, salt string, nvars int) *J {
 		if r.P(p.PMalformed) {
 			bucketBy = r.Pick([]string{"//", "/a~2", "/"})
 			if kind == "" && r.P(0.7) { // only a reference (contextKind present) can be syntactically invalid
-				kind = r.Pick(kinds)
+				kind = docKind(r)
 				ro.Set("contextKind", JStr(kind))
 			}
 		}
@@ -666,7 +682,7 @@ func (w *World) genTargets(n int, withKind bool, nvars int) *J {
 			}
 		}
 		if withKind {
-			k := r.Pick([]string{"user", "user", "org", "dev", ""})
+			k := r.Pick([]string{"user", "user", "org", "dev", "", "multi"})
 			if k != "" || r.P(0.5) {
 				t.Set("contextKind", JStr(k))
 			}
@@ -759,7 +775,7 @@ func (w *World) genSegTargets(n int) *J {
 	arr := &J{K: 'a', A: []*J{}}
 	for i := 0; i < n; i++ {
 		t := JObj()
-		k := r.Pick([]string{"org", "dev", "org", "user", ""})
+		k := r.Pick([]string{"org", "dev", "org", "user", "", "multi"})
 		if k != "" {
 			t.Set("contextKind", JStr(k))
 		}
@@ -807,26 +823,35 @@ func (w *World) genSegment(key string) *J {
 			cls.A = append(cls.A, w.genClause(true))
 		}
 		ru.Set("clauses", cls)
-		if r.P(0.35) {
+		if r.P(0.35 + p.PSegBucket) {
 			kind := ""
 			if r.P(0.4) {
-				kind = r.Pick(kinds)
+				kind = docKind(r)
 			}
 			bucketBy := ""
-			if r.P(0.3) {
+			if r.P(0.3 + p.PSegBucket) {
 				bucketBy = r.Pick([]string{"email", "age", "name", "score"})
 				if kind != "" && r.P(0.4) {
 					bucketBy = r.Pick([]string{"/email", "/age", "/nested/a/b", "/name"})
 				}
-				if r.P(p.PMalformed) {
+				if r.P(math.Max(p.PMalformed, p.PSegBucket/2)) {
 					bucketBy = r.Pick([]string{"//", "/a~2"})
+					if kind == "" && r.P(0.7) { // only a reference (rolloutContextKind present) can be syntactically invalid
+						kind = r.Pick(kinds)
+						if len(w.ctx.Singles) > 0 && r.P(0.6) { // mostly a kind the context has, so that the bucket is really asked for
+							kind = w.ctx.Singles[r.Intn(len(w.ctx.Singles))].Kind
+						}
+					}
 				}
 			}
 			var wt int64
 			if b, ok := w.bucketOf(false, nil, kind, key, bucketBy, salt); ok && r.P(math.Min(p.PBoundary+0.2, 0.7)) {
 				wt = int64(float64(b)*100000) + int64(r.Range(-1, 1))
 			} else {
-				wt = r.Pick2([]int64{0, 0, 1, 50000, 100000, 99999, -1, 30000})
+				wt = r.Pick2([]int64{0, 0, 1, 50000, 100000, 99999, -1, 30000, 100000, 100001, 250000})
+			}
+			if (bucketBy == "//" || bucketBy == "/a~2") && r.P(0.5) { // "everyone" weights must still report a malformed reference
+				wt = r.Pick2([]int64{100000, 100000, 100001, 1 << 40})
 			}
 			ru.Set("weight", JInt(wt))
 			if bucketBy != "" {
@@ -850,7 +875,7 @@ func (w *World) genSegment(key string) *J {
 	if r.P(p.PBigSeg) {
 		s.Set("unbounded", JBool(true))
 		if r.P(0.5) {
-			s.Set("unboundedContextKind", JStr(r.Pick(kinds)))
+			s.Set("unboundedContextKind", JStr(docKind(r)))
 		}
 		if r.P(0.85) {
 			g := int64(r.Intn(3))
